@@ -105,6 +105,10 @@ def regenerate():
     notes["normalize"] = translate_norm.generate(REPO, os.path.join(COQ, "Gen", "SrcNorm.v"), os.path.join(HARNESS, "fallback"))
     import translate_header
     notes["header"] = translate_header.generate(REPO, os.path.join(COQ, "Gen", "SrcHeader.v"), os.path.join(HARNESS, "fallback"))
+    import translate_toarg
+    notes["to_arg"] = translate_toarg.generate(REPO, os.path.join(COQ, "Gen", "SrcToArg.v"), os.path.join(HARNESS, "fallback"))
+    import translate_fromarg
+    notes["from_arg"] = translate_fromarg.generate(REPO, os.path.join(COQ, "Gen", "SrcFromArg.v"), os.path.join(HARNESS, "fallback"))
     import translate_deps
     notes["deps"] = translate_deps.generate(REPO, os.path.join(COQ, "Gen", "SrcDeps.v"), os.path.join(HARNESS, "fallback"))
     return notes
